@@ -376,6 +376,11 @@ def mkInjected (kind : String) (kv : KV) : Option (St V) :=
   | "ema" => do pure (.ema (← kv.val "w") (← kv.optVal "mean"))
   | "integrate" => do pure (.integrate (← kv.val "value"))
   | "differentiate" => do pure (.differentiate (← kv.optVal "value"))
+  | "mean" => do
+    pure (.mean (← kv.nat "N") { mean := ← kv.optVal "mean", taps := (kv.vals "taps").getD [], weight := ← kv.val "weight" })
+  | "emedian" => do
+    pure (.emedian (← kv.val "pre") (← kv.val "mid") (← kv.val "post")
+      { pre := ← kv.optVal "spre", post := ← kv.optVal "spost", median := ← kv.optVal "median" })
   | "convolve" => do pure (.convolve (← kv.vals "c") ((kv.vals "taps").getD []))
   | "delay" => do pure (.delay (← kv.nat "N") ((kv.vals "taps").getD []))
   | _ => none
